@@ -20,7 +20,7 @@ EXPLANATION = (
     "P[i,j]*perm(W) == W[i,j]*perm(W minus row i, column j) (perm = Leibniz expansion, the property's own oracle), P == 0 on busy rows/columns, and the code's own allclose asserts as exact "
     "row/column-sum identities. This is complete per shape and bounded in shape, hence 'other'."
 )
-BOUNDS = {"quick": "all shapes with N<=2 plus-ensembles, every 5th shape with N=3", "thorough": "all shapes with N<=3, every 3rd with N=4 (0/1 and symbolic weights)"}
+BOUNDS = {"quick": "all shapes with N<=2 plus-ensembles, every 5th shape with N=3", "thorough": "all shapes with N<=3, every 3rd with N=4 (0/1 weights: all of those; symbolic wire-fencing / mixed weights: only states with at least one busy ensemble -- the fully idle N=4 state needs the 5x5 symbolic permanent identity, beyond the solver: not decided)"}
 
 
 def _has_matching(rows, idle):
@@ -60,6 +60,10 @@ def jobs(tier):
     for N, stride in plan:
         for k, (kind, rows, locks) in enumerate(shapes(N)):
             if k % stride == 0:
+                if N >= 4 and kind != "sh" and not any(locks):
+                    # the fully idle N = 4 state with symbolic wire-fencing weights needs the 5x5 symbolic permanent identity:
+                    # beyond the solver (minutes, > 10 GB per shape) -- NOT decided, stated in BOUNDS
+                    continue
                 all_shapes.append((N, kind, rows, locks))
     nchunks = 28
     js = []
@@ -118,12 +122,49 @@ def _run_shape(rows, locks):
     return explore(run)
 
 
+def _child(spec, tier, seed, conn):
+    import resource
+    try:
+        resource.setrlimit(resource.RLIMIT_AS, (8 << 30, 8 << 30))  # a blow-up becomes MemoryError here, not an OOM kill of some other process
+        conn.send(run_chunk(dict(spec, _child=True), tier, seed))
+    except BaseException as e:  # MemoryError included
+        conn.send({"error": repr(e)})
+
+
+def _chunk_in_children(spec, tier, seed):
+    """N >= 4: one forked child per shape (its solver memory is returned to the system afterwards), 8 GB / 900 s each."""
+    import multiprocessing as mp
+    out = {"job": spec["name"], "obligations": [], "samples": [], "coverage_extra": {}}
+    ctx = mp.get_context("fork")
+    for shape in spec["shapes"]:
+        a, b = ctx.Pipe(duplex=False)
+        p = ctx.Process(target=_child, args=(dict(spec, shapes=[shape]), tier, seed, b))
+        p.start()
+        b.close()
+        r = a.recv() if a.poll(900) else {"error": "no result within 900 s"}
+        p.join(5)
+        if p.is_alive():
+            p.kill()
+        if "error" in r:
+            N, kind, rows, locks = shape
+            out["obligations"].append({"name": f"inf_retis/N{N}/{kind}/rows={rows}/busy={locks}".replace(" ", ""), "result": "unknown", "label": "proved-per-shape", "backend": "E2", "time_s": 0.0,
+                                       "engine": "E2", "solver_output": "shape abandoned: " + r["error"]})
+            continue
+        out["obligations"] += r.get("obligations", [])
+        out["samples"] = (out["samples"] + r.get("samples", []))[:3]
+        for k, v in (r.get("coverage_extra") or {}).items():
+            out["coverage_extra"][k] = out["coverage_extra"].get(k, 0) + v if isinstance(v, (int, float)) else v
+    return out
+
+
 def run_chunk(spec, tier, seed):
     import time
     import numpy as np
     import z3
     from symnp.sym import prove, tz
 
+    if any(sh[0] >= 4 for sh in spec["shapes"]) and not spec.get("_child"):
+        return _chunk_in_children(spec, tier, seed)
     obs, n_paths, n_entries, samples = [], 0, 0, []
     for N, kind, rows, locks in spec["shapes"]:
         t0 = time.time()
